@@ -577,6 +577,10 @@ int websocket_upgrade_on_header_field(http_parser *p, const char *at, size_t len
 {
 	struct http_connection *connection = container_of(p, struct http_connection, parser);
 	struct websocket *s = connection->parser.data;
+	if (unlikely(s == NULL)) {
+		/* header data in front of a completely accepted request line */
+		return -1;
+	}
 
 	static const char sec_key[] = "Sec-WebSocket-Key";
 	if ((sizeof(sec_key) - 1 == length) && (jet_strncasecmp(at, sec_key, length) == 0)) {
@@ -886,6 +890,9 @@ int websocket_upgrade_on_header_value(http_parser *p, const char *at, size_t len
 
 	struct http_connection *connection = container_of(p, struct http_connection, parser);
 	struct websocket *s = connection->parser.data;
+	if (unlikely(s == NULL)) {
+		return -1;
+	}
 
 	switch (s->current_header_field) {
 	case HEADER_SEC_WEBSOCKET_KEY:
@@ -937,6 +944,9 @@ int websocket_upgrade_on_headers_complete(http_parser *parser)
 		return -1;
 	}
 	const struct websocket *s = connection->parser.data;
+	if (unlikely(s == NULL)) {
+		return -1;
+	}
 	if (!s->upgrade_to_websocket || !s->key_received || !s->version_received) {
 		return -1;
 	}
